@@ -193,7 +193,7 @@ def c03(ctx):
 # =========================================================================================
 #  state animator: C04 C05 C06 C07
 # =========================================================================================
-NK = 8   # size of the animator configuration pool in MC_Animator.tla
+NK = 9   # size of the animator configuration pool in MC_Animator.tla
 
 
 def mc_animator(ctx):
@@ -310,6 +310,10 @@ def c07(ctx):
     judge_replay(ctx, rep, lambda m: m.get("class") == "ended" or (m.get("class") == "vals" and m.get("exp_ended") is True),
                  "is_ended differs from the specification, or values do not rest at the terminal values while ended")
     animator_legB(ctx, want_values=True)
+    # never ended while a component repeats forever - also when the clock saturates
+    ex = run_harness(["drive-extreme", ctx.seed, 50])
+    for i in ex["endless_issues"]:
+        ctx.violation("an endlessly repeating animation reports completion after an astronomically large advance", i)
     return "model_checking", RULE_AN
 
 
@@ -477,7 +481,7 @@ def c20(ctx):
     for e, prof in zip(ex, ("debug", "release")):
         for i in e["first"]:
             ctx.violation("extreme input (%s build)" % prof, i)
-        for i in e["animator_issues"]:
+        for i in e["animator_issues"] + e["endless_issues"]:
             ctx.violation("animator with an astronomically large advance (%s build)" % prof, i)
     if ex[0]["digest"] != ex[1]["digest"]:
         ctx.violation("debug and release builds produce different results on the extreme-input sweep", {"debug": ex[0]["digest"], "release": ex[1]["digest"]})
@@ -542,7 +546,14 @@ def c14(ctx):
                 ctx.sample({"validated_record": json.loads(l)})
     if not ok:
         ctx.violation("trace rejected: a recorded lerp result is not allowed by Lerp.tla", {"first_unmatched_record": rej})
-    ctx.assumptions += ["integer results must be the nearest integer exactly when every f32 intermediate is exact (max(|a|,|b|)*den < 2^24), within one f32 spacing otherwise, "
+    # records TLC accepted only under the as-found f32 rounding of intermediates: the known finding (never silent)
+    dev = re.findall(r'<<"DEVIATION", "f32-inexact-intermediate", "(\w+)", "(\w+)", (-?\d+), (\d+), (-?\d+)>>', open(ctx.path("trace-Trace_Lerp.txt")).read())
+    ctx.extra["f32_rounding_deviations"] = {"records": len(dev), "first": dev[:3]}
+    if dev:
+        ctx.violation("an integer lerp result is not the exactly rounded interpolation (one f32 spacing off)",
+                      {"class": "f32-inexact-intermediate", "count": len(dev), "example": {"record": dev[0][0], "type": dev[0][1], "a": int(dev[0][2]), "index": int(dev[0][3]), "result": int(dev[0][4])}})
+    ctx.assumptions += ["integer results must be the nearest integer exactly when every f32 intermediate is exact (max(|a|,|b|)*den < 2^24); otherwise a result that is not the nearest integer but within one f32 spacing is accepted by the trace specification "
+                        "and reported as the known finding C14-f32-intermediate-rounding; lerp(a,a,x) = a exactly below 2^22, "
                         "either neighbour within 2^-20 of a tie; end points always exact",
                         "float-comparison laws (betweenness to 1 ulp, f64 to f32 precision) and glam component-wise equality are judged in the harness and enter the trace as counts",
                         "Quat / DQuat (glam's own normalising lerp) are not claimed"]
